@@ -1,6 +1,6 @@
 """C12 — containment follows the PostgreSQL @> rules with compare's equality."""
 from .. import gen
-from . import common
+from . import common, sizes
 
 SPEC_THEOREM = 'Props/C12: contains_t reflexive, transitive, scalar containment = compare equality; C12_contains_bytes: contains_w (enc a) (enc b) = Ok (contains_t a b) for the offset-faithful walker ContainWalk.v'
 TRUSTED = ['Coq 8.16.1 kernel', 'translator', 'extraction + OCaml driver', 'Rust harness', 'model Contain.v (mirror of contains_value); ContainWalk.v (offset-faithful contains_jsonb / array_contains / scalar_payload_eq, refinement proved on encodings, tied to the code by correspondence including corrupt buffers)']
@@ -59,14 +59,53 @@ def unwrap(ctx, a, top=True):
     return a
 
 
+def wide(a):
+    return a[0] in 'ao' and len(a[1]) > 40
+
+
+def small_parts(ctx, a):
+    """for a WIDE container (the model's containment is cubic: 7 s for a 256-element array against itself, minutes at 1000):
+    small documents made of its first / middle / last members -- contained; and the same with one member that is not there, a
+    changed value, a key that is one byte longer -- not contained.  The answer is judged by the tree oracle either way."""
+    fml = [m for _, m in sizes.first_mid_last(a)]
+    if a[0] == 'a':
+        absent = ('s', b'absent-from-the-array')
+        out = [('a', fml), ('a', fml[::-1]), ('a', [fml[-1], fml[-1]]), ('a', fml + [absent]), ('a', [absent]), ('a', []), ('a', [('a', fml[-1:])])]
+        out += [x for x in fml[-1:] if x[0] not in 'ao'] + [m for m in sizes.end_mutants(('a', fml))[1:]]
+        return out
+    (k0, x0), (k2, x2) = fml[0], fml[-1]
+    return [('o', fml), ('o', [fml[-1]]), ('o', [(k2, ('s', b'another value'))]), ('o', [(k2 + b'x', x2)]), ('o', [(k0[:-1], x0)] if k0 else []),
+            ('o', fml[:1] + [(b'~absent', ('n',))]), ('o', []), ('a', [('o', [fml[-1]])])]
+
+
 def generate(ctx):
     r = ctx.rng
     ds = common.docs(ctx, ctx.scale(700, 30000), finite=False)
+    # strings / keys of 255 .. 65536 bytes, containers of 255 .. 1000 members (sizes.py; second review H2)
+    big = sizes.string_docs() + sizes.container_docs()
+    ds_big = [v for _, v in big]
     ctx.pairs = []
     ctx.chains = []
     ctx.forms = []
-    for a in ds:
-        cands = [a, derive(ctx, a), retype(ctx, derive(ctx, a)), retype(ctx, a), r.choice(ds), unwrap(ctx, a), derive(ctx, unwrap(ctx, a))]
+    for a in ds + ds_big:
+        is_big = any(a is v for v in ds_big)
+        if wide(a):
+            cands = small_parts(ctx, a) + ([a] if len(a[1]) <= 130 or (a[0] == 'a' and len(a[1]) == 256 and a[1][0][0] == 'u') else [])
+        elif is_big:
+            # a long string / key: the document itself, and copies that differ in its last byte, lack its last member ...
+            cands = [a] + sizes.end_mutants(a) + [('a', [a])]
+        else:
+            cands = [a, derive(ctx, a), retype(ctx, derive(ctx, a)), retype(ctx, a), r.choice(ds), unwrap(ctx, a), derive(ctx, unwrap(ctx, a))]
+        if wide(a) or is_big:
+            for b in cands:
+                if b[0] == 's' and not sizes_utf8(b[1]):
+                    continue
+                c1 = ctx.add('contains %s %s' % (gen.hexarg(gen.enc(a)), gen.hexarg(gen.enc(b))), meta=('c', a, b))
+                ctx.pairs.append((a, b, c1.id))
+                if not wide(b):
+                    c2 = ctx.add('contains %s %s' % (gen.hexarg(gen.enc(b)), gen.hexarg(gen.enc(a))), meta=('c', b, a))
+                    ctx.pairs.append((b, a, c2.id))
+            continue
         if a[0] == 'a' and a[1]:
             cands.append(r.choice(a[1]))           # bare scalar / element of a top-level array
             cands.append(('a', [a]))               # one level deeper
@@ -118,7 +157,6 @@ def malformed(ctx):
     # contains_jsonb on buffers that are NOT valid encodings: C12 says nothing about them, the offset-faithful model
     # (ContainWalk.v) does -- value, swallowed error (false) or panic; this stream only feeds the correspondence tie
     r = ctx.rng
-    ctx.open_classes.add('skipped-allocation')
     small = [(a, b) for a, b, cid in ctx.pairs if not isinstance(cid, tuple) and 8 <= len(gen.enc(a)) <= 90 and len(gen.enc(b)) <= 90]
     for a, b in r.sample(small, min(len(small), ctx.scale(160, 4000))):
         ea, eb = gen.enc(a), gen.enc(b)
@@ -130,11 +168,12 @@ def malformed(ctx):
             ctx.add('contains %s %s' % (gen.hexarg(r.choice(mutants(ctx, ea, 6))), gen.hexarg(r.choice(mutants(ctx, eb, 6)))), kind='malformed')
 
 
-def classify(ctx, c, io, mo):
-    # the harness process died on a corrupt buffer (allocation driven by a corrupted count): not judged
-    if c.kind == 'malformed' and io.startswith('abort:'):
-        return 'skipped-allocation'
-    return None
+def sizes_utf8(b):
+    try:
+        b.decode('utf-8')
+        return True
+    except UnicodeDecodeError:
+        return False
 
 
 def judge(ctx):
@@ -148,6 +187,14 @@ def judge(ctx):
         o = impl.get(cid)
         if o == 'panic':
             ctx.violate('contains panics', case=[gen.vtext(a), gen.vtext(b)], observed=o)
+            continue
+        # the answer itself, positive AND negative, against containment written from the property text (treeoracle.contains)
+        from . import treeoracle
+        want = 'ok =true' if treeoracle.contains(a, b) else 'ok =false'
+        ctx.count('tree_oracle_judged', want[4:])
+        if o != want:
+            ctx.violate('contains differs from containment on the decoded trees (independent oracle written from the property text)',
+                        case=[gen.vtext(a)[:400], gen.vtext(b)[:400]], expected=want, observed=o)
         if a is b and o != 'ok =true':
             ctx.violate('containment is not reflexive', case=gen.vtext(a), observed=o)
     for a, b, ids in ctx.forms:
